@@ -22,6 +22,7 @@ type TempoController struct {
 }
 
 func (t *TempoController) Trace(w http.ResponseWriter, r *http.Request) {
+	defer tamePanic(w, r)
 	internalCtx, err := RunPreRequestPlugins(r)
 	if err != nil {
 		PromError(500, err.Error(), w)
@@ -48,7 +49,7 @@ func (t *TempoController) Trace(w http.ResponseWriter, r *http.Request) {
 	if err != nil {
 		end = 0
 	}
-	bTraceId := make([]byte, 32)
+	bTraceId := make([]byte, hex.DecodedLen(len(traceId)))
 	_, err = hex.Decode(bTraceId, []byte(traceId))
 	if err != nil {
 		PromError(500, err.Error(), w)
